@@ -289,12 +289,29 @@ func init() {
 					VersionType: resolve.Concrete,
 					Version:     arg(4),
 				}
-				ctx, cancel := context.WithTimeout(context.Background(), 15*time.Second)
+				// A resolver that only stops because its context expired did not terminate
+				// on its own: that is reported as a hang (an unbounded run would also grow
+				// without limit, so the deadline is short).
+				ctx, cancel := context.WithTimeout(context.Background(), 6*time.Second)
 				defer cancel()
 				g, err := r.Resolve(ctx, vk)
+				if ctx.Err() != nil {
+					return sx.L(sx.Sym("hang"))
+				}
 				if err == nil {
 					_ = g.Canon()
 					_ = g.String()
+				}
+				// the same resolver is asked again, and about every other version of the root package:
+				// per-resolver caches must not turn an error into a panic
+				_, _ = r.Resolve(ctx, vk)
+				if vs, verr := lc.Versions(ctx, vk.PackageKey); verr == nil {
+					for _, v := range vs {
+						_, _ = r.Resolve(ctx, v.VersionKey)
+					}
+				}
+				if ctx.Err() != nil {
+					return sx.L(sx.Sym("hang"))
 				}
 				return cls(err)
 			case "resolveschema":
@@ -310,9 +327,12 @@ func init() {
 					VersionType: resolve.Concrete,
 					Version:     arg(4),
 				}
-				ctx, cancel := context.WithTimeout(context.Background(), 15*time.Second)
+				ctx, cancel := context.WithTimeout(context.Background(), 6*time.Second)
 				defer cancel()
 				g, err := r.Resolve(ctx, vk)
+				if ctx.Err() != nil {
+					return sx.L(sx.Sym("hang"))
+				}
 				if err == nil {
 					_ = g.Canon()
 					_ = g.String()
